@@ -714,7 +714,8 @@ def all_cases(thorough):
         for pre in ('additive', 'additive+ruviiv', 'proportional+ruviiv', 'combined', 'combined+ruviiv'):
             for e in ('additive', 'proportional', 'combined'):
                 cases.append((start, 'error', f'{pre}>{e}'))
-        for r in ('fo_abs', 'zo_abs', 'transits1', 'transits3', 'transits3>5', 'transits5>2', 'transits2>4'):
+        for r in ('fo_abs', 'zo_abs', 'transits1', 'transits3', 'transits3>5', 'transits5>2', 'transits2>4', 'transits3>1',
+                  'transits3>5>2>1'):
             cases.append((start, 'rates', r))
         occ = [c for c in ('FA1', 'VISI', 'OCC') if c in m.datainfo.names and not m.datainfo[c].drop][:1]
         for o in occ:
